@@ -23,6 +23,10 @@ func init() {
 // quiescent points; one forged / stale / misaddressed STUN datagram is delivered to one socket of
 // one agent; everything publicly observable about that agent must be unchanged (per category).
 func runC02(c *core.Ctx) {
+	if c.T.Bias(1, 12, "cross-transport") {
+		runC02CrossTransport(c)
+		return
+	}
 	k := drawC01Knobs(c)
 	// keep sessions lively: C02 is about injected messages, not about reachability
 	if k.blockPct > 40 {
